@@ -405,6 +405,8 @@ where
         {
             return None;
         }
+        #[cfg(oxidd_verif)]
+        oxidd_core::verif::emit(oxidd_core::verif::site::CACHE_GET, &[]);
         self.bucket(operator, operands)
             .try_lock()?
             .get(manager, operator, operands)
@@ -428,6 +430,8 @@ where
         {
             return;
         }
+        #[cfg(oxidd_verif)]
+        oxidd_core::verif::emit(oxidd_core::verif::site::CACHE_ADD, &[]);
         if let Some(mut entry) = self.bucket(operator, operands).try_lock() {
             entry.set(operator, operands, values);
         }
